@@ -2754,12 +2754,14 @@ class Trimesh(Geometry3D):
         `self.face_normals` and `self.vertex_normals`.
         """
         with self._cache:
+            # reverse the faces first so the negated normals
+            # are checked against the new winding when assigned
+            # fliplr makes array non-contiguous so cache checks slow
+            self.faces = np.ascontiguousarray(np.fliplr(self.faces))
             if "face_normals" in self._cache:
                 self.face_normals = self._cache["face_normals"] * -1.0
             if "vertex_normals" in self._cache:
                 self.vertex_normals = self._cache["vertex_normals"] * -1.0
-            # fliplr makes array non-contiguous so cache checks slow
-            self.faces = np.ascontiguousarray(np.fliplr(self.faces))
         # save our normals
         self._cache.clear(exclude=["face_normals", "vertex_normals"])
 
